@@ -259,7 +259,7 @@ theorem pinv2_subInc {s s' : St} {t : Nat} (h1 : PInv1 s) (h : PInv2 s) (hs : sy
     have hof := owes_false_of_pc h t (by simp [g.1])
     have hwf := no_readers_of_W h1 (t := t) (by simp [g.1, inRd])
     have hnA := not_inA_of_not_W h1 hwf
-    refine pinv2_sub_cnt h t (lt_nSubs h1 t (by simp [g.1])) { s.subs t with pc := .subAdded, since := s.returned } (s.subsCount + 1)
+    refine pinv2_sub_cnt h t (lt_nSubs h1 t (by simp [g.1])) { s.subs t with pc := .subAdded, since := s.returned, nextSeq := s.log.length + 1 } (s.subsCount + 1)
       rfl rfl rfl rfl rfl rfl rfl rfl (not_counted_of_not_W h1 hwf) ?_ ?_ rfl ?_ ?_ ?_ ?_ ?_ ?_
     · simp [cntI, g.1]
     · have := g.2; omega
@@ -493,7 +493,7 @@ theorem pinv2_recv {s s' : St} {a t : Nat} (h1 : PInv1 s) (h : PInv2 s) (hs : sy
   · rename_i g; obtain ⟨g1, g2, g3⟩ := g; cases hs
     have hex : ∃ b, inA (s.senders b).pc = true := ⟨a, by simp [g1, inA]⟩
     have ho := h.idleOwes hex t (Or.inl g3)
-    exact pinv2_xfer_core h1 h a t { s.subs t with pc := .got, cur := (s.senders a).val, owes := false } { s.senders a with k := (s.senders a).k + 1 }
+    exact pinv2_xfer_core h1 h a t { s.subs t with pc := .got, cur := (s.senders a).val, owes := false, nextSeq := s.log.length + 1 } { s.senders a with k := (s.senders a).k + 1 }
       g1 (lt_nSubs h1 t (by simp [g3])) rfl rfl rfl rfl rfl rfl rfl g1 rfl rfl (by simp [cntI, g3]) rfl (by simp)
       (Or.inl ⟨by simp [oweI, ho], by simp [absI, g3], by simp [gotI, g3], rfl⟩)
   · cases hs
